@@ -9,7 +9,7 @@
    batch; an lbfgs/ga result that is already sampled is replaced by the best filtered candidate). *)
 From Coq Require Import List ZArith Bool Arith Permutation.
 Import ListNotations.
-Require Import DH.C08_NoDup.Model DH.C08_NoDup.Check DH.C08_NoDup.Lemmas DH.C08_NoDup.Lemmas2 DH.C08_NoDup.Lemmas3.
+Require Import DH.C08_NoDup.Model DH.C08_NoDup.Check DH.C08_NoDup.Lemmas DH.C08_NoDup.Lemmas2 DH.C08_NoDup.Lemmas3 DH.C08_NoDup.Lemmas4.
 Open Scope Z_scope.
 
 (* _filter_duplicated: when the sample contains a point outside the history, exactly the new points of the sample, once each;
@@ -95,6 +95,21 @@ Theorem C08_prefix_lbfgs_refuted :
   /\ run (mkCfg false true true) (init_st 2 []) lbfgs_witness = None.
 Proof. exact lbfgs_refuted. Qed.
 Print Assumptions C08_prefix_lbfgs_refuted.
+
+(* the automaton does not block (its requirements are satisfiable in every state): whatever the candidate samples, a constant-liar
+   batch and a repaired qLCB batch of any size are accepted for the choice "head of each filtered sample" *)
+Theorem C08_cl_enabled : forall c s n strat cl, (2 <= n)%nat -> initial_phase c s = false -> is_oneshot strat = false ->
+  is_qlcb strat = false -> cache s = None -> next s <> NoNext -> length cl = n -> Forall (fun cand => cand <> []) cl ->
+  exists s' h, accept c s (Ask n strat cl (first_picks (sampled s) cl)) = inl (s', h, 8%nat).
+Proof. exact cl_enabled. Qed.
+Print Assumptions C08_cl_enabled.
+
+Theorem C08_qlcb_enabled : forall c s n strat cand0 sf cand, fixed c = true -> (2 <= n)%nat -> initial_phase c s = false ->
+  is_oneshot strat = false -> is_qlcb strat = true -> has_model s = true -> next s = Pending cand0 sf -> cand0 <> [] -> cand <> [] ->
+  let x0 := hd 0 (filter_dup sf cand0) in
+  exists s' h, accept c s (Ask n strat [cand] (x0 :: first_picks (sampled s ++ [x0]) (repeat cand (n - 1)))) = inl (s', h, 6%nat).
+Proof. exact qlcb_enabled. Qed.
+Print Assumptions C08_qlcb_enabled.
 
 (* the oracles applied to the implementation's outputs *)
 Theorem C08_oracle_prefix : forall N l, ok_prefix N l = true <-> NoDup (firstn N l).
